@@ -8,7 +8,8 @@
 From Coq Require Import List ZArith Bool Arith Lia.
 From RecordUpdate Require Import RecordUpdate.
 From FV Require Import Kernel Accounting World.
-From FV Require Factory FactoryInv FactoryLevel FactoryCount.
+From FV Require Factory FactoryInv FactoryLevel FactoryCount FactoryStamp.
+From Coq Require Import Sorting.Sorted.
 Import ListNotations.
 Open Scope Z_scope.
 
@@ -72,3 +73,39 @@ Theorem C18_counters_are_event_counts :
       nrecv (get_node w i) = FactoryCount.cnt (FactoryCount.is_recv i) (wlog w).
 Proof. exact FactoryCount.counters_are_event_counts. Qed.
 Print Assumptions C18_counters_are_event_counts.
+
+(* every factory configuration whose sinks start with a zero cycle total, every number of kernel steps:
+   a sink's total_cycle_time is the sum over the receptions in the trace of reception time minus the creation
+   stamp the sink read from the item (an LRecv entry records both) -- theories/Factory/FactoryStamp.v *)
+Theorem C18_cycle_time_is_sum :
+  forall nodes edges order n,
+    (forall nd, In nd nodes -> ncycle nd = 0) ->
+    let w := FactoryInv.iter_fstep n (Factory.mk_world nodes edges order) in
+    forall i, (i < length (wnodes w))%nat -> ncycle (get_node w i) = FactoryStamp.cyc i (wlog w).
+Proof. exact FactoryStamp.cycle_time_is_sum. Qed.
+Print Assumptions C18_cycle_time_is_sum.
+
+(* ... every reception recorded in the trace is at or after the creation stamp it reads, and no item carries a
+   creation stamp that lies in the future *)
+Theorem C18_reception_not_before_creation :
+  forall nodes edges order n,
+    (forall nd, In nd nodes -> ncycle nd = 0) ->
+    let w := FactoryInv.iter_fstep n (Factory.mk_world nodes edges order) in
+    Forall FactoryStamp.recv_ok (wlog w) /\ Forall (FactoryStamp.cre_ok (wnow w)) (witems w).
+Proof. exact FactoryStamp.reception_not_before_creation. Qed.
+Print Assumptions C18_reception_not_before_creation.
+
+(* ... the time stamps of the movement trace (creation, put, get, pack, discard, reception) are non-decreasing
+   in trace order and never ahead of the clock: in particular the stamps along one item's route never decrease *)
+Theorem C18_trace_times_nondecreasing :
+  forall nodes edges order n,
+    (forall nd, In nd nodes -> ncycle nd = 0) ->
+    let w := FactoryInv.iter_fstep n (Factory.mk_world nodes edges order) in
+    StronglySorted Z.le (FactoryStamp.times (wlog w)) /\ Forall (fun t => t <= wnow w) (FactoryStamp.times (wlog w)).
+Proof. exact FactoryStamp.trace_times_nondecreasing. Qed.
+Print Assumptions C18_trace_times_nondecreasing.
+
+Example C18_cycle_witness :
+  FactoryStamp.cyc 3 [LGen 0 0 0; LRecv 5 3 0 1; LRecv 7 2 1 0; LRecv 9 3 2 4] = 9 /\
+  FactoryStamp.times [LGen 0 0 0; LSel 1 true 0; LRecv 5 3 0 1] = [0; 5].
+Proof. vm_compute. auto. Qed.
